@@ -656,8 +656,7 @@ Proof.
   all: try (intros fr0 rest0 ph0 r0 ok0 Hp Hge; inversion Hp; subst; clear Hp; apply (Hregt Hs _ eq_refl); lia).
   all: try (destruct m; cbn; lia).
   all: try (intros Ho; split; [exact Ho|]; rewrite (Hregt Hs _ eq_refl) by lia; lia).
-  all: match goal with |- ?G => idtac "REMAIN" G end.
-Admitted.
+Qed.
 
 Lemma Inv2_step cf : forall g ls t c l g' l' es,
   Inv1 cf g ls -> Inv2 cf g ls -> nth_error ls t = Some l -> tstep cf t c g l = Some (g', l', es) ->
@@ -1438,4 +1437,134 @@ Proof.
   - apply negb_true_iff in Hw. apply negb_true_iff. eapply any_own_le_false; eauto.
   - destruct (astep cf o a') as [b'|] eqn:E; [|discriminate].
     destruct (astep_mono cf o a a' b' H E) as [b [-> Hb]]. eapply IH; eauto.
+Qed.
+
+Lemma sle_trans x y z : sle x y -> sle y z -> sle x z.
+Proof.
+  destruct x as [[s m]|], y as [[s' m']|], z as [[s2 m2]|]; cbn; try tauto. intros [-> H1] [-> H2]. auto.
+Qed.
+Lemma ale_trans a b c : ale a b -> ale b c -> ale a c.
+Proof.
+  intros H. revert c. induction H as [|p q a b Hpq H IH]; intros c Hc; inversion Hc; subst; constructor.
+  - eapply sle_trans; eauto.
+  - apply IH. assumption.
+Qed.
+
+(* abstraction of the concrete slot table *)
+Lemma al_upd sl h y : al (upd sl h y) = upd (al sl) h (ao y).
+Proof. unfold al. revert h. induction sl as [|x r IH]; intros [|h]; cbn; try reflexivity. rewrite IH. reflexivity. Qed.
+Lemma aget_al sl h : aget (al sl) h = ao (slot sl h).
+Proof. unfold aget, al, slot. rewrite nth_error_map. destruct (nth_error sl h) as [[x|]|]; reflexivity. Qed.
+Lemma al_move sl src dst : al (do_move sl src dst) = amove (al sl) src dst.
+Proof.
+  unfold do_move, amove. rewrite aget_al. destruct (slot sl src) as [x|]; cbn [ao option_map]; [|reflexivity].
+  rewrite !al_upd. reflexivity.
+Qed.
+Lemma any_own_al sl : any_own (al sl) = false -> forall h x, slot sl h = Some x -> hown x = false.
+Proof.
+  unfold any_own, al, slot. induction sl as [|o r IH]; intros Hf h x Hx.
+  - destruct h; discriminate.
+  - cbn in Hf. apply orb_false_iff in Hf as [Ho Hr]. destruct h as [|h]; cbn in Hx.
+    + subst o. cbn in Ho. destruct (hown x); [discriminate|reflexivity].
+    + eapply IH; eauto.
+Qed.
+
+(* the abstract state in which the current operation will leave the slots (pending acquisitions succeed) *)
+Definition apost (l : loc) : list aslot :=
+  match at_ l with
+  | HAcq h _ sh => upd (al (slots l)) h (Some (sh, true))
+  | HRelOld h new => upd (al (slots l)) h (Some (hsh new, hown new))
+  | HRel k => al (after_rel k (slots l))
+  | _ => al (slots l)
+  end.
+Definition wfl (cf : config) (l : loc) : Prop :=
+  (exists a, ale (apost l) a /\ wf_from cf a (prog l) = true) /\
+  match at_ l with
+  | HAcq _ ABlock _ | GAcq _ => any_own (al (slots l)) = false
+  | _ => True
+  end.
+
+Lemma wfl_step cf t c g l g' l' es : locok cf l -> wfl cf l -> tstep cf t c g l = Some (g', l', es) -> wfl cf l'.
+Proof.
+  intros [Hlen Hpc] [[a [Ha Hw]] Hside] Hs. destruct l as [pr p sl]. unfold apost in Ha. cbn [at_ slots prog] in *.
+  destruct p.
+  1: { (* an operation starts: follow the abstract step *)
+    destruct pr as [|o rest]; [discriminate|].
+    cbn [wf_from] in Hw. destruct (astep cf o a) as [a1|] eqn:Ea; [|discriminate].
+    destruct (astep_mono cf o _ _ _ Ha Ea) as [b [Eb Hb]].
+    assert (Hgoal : forall p' sl', (ale (apost (Loc rest p' sl')) b) ->
+              match p' with HAcq _ ABlock _ | GAcq _ => any_own (al sl') = false | _ => True end ->
+              wfl cf (Loc rest p' sl')).
+    { intros p' sl' H1 H2. split; [exists a1; split; [|exact Hw]|exact H2].
+      eapply ale_trans; eauto. }
+    clear Ha Ea Hw Hb. 
+    step_cases Hs;
+      repeat match goal with
+      | H : negb _ = false |- _ => apply negb_false_iff in H
+      | H : negb _ = true |- _ => apply negb_true_iff in H
+      | H : _ || _ = false |- _ => apply orb_false_iff in H; destruct H
+      end; apply Hgoal; unfold apost; cbn [at_ slots astep] in *.
+    all: unfold after_rel in *.
+    all: repeat match goal with H : slot _ _ = _ |- _ => rewrite H in * end.
+    all: rewrite ?al_upd, ?al_move, ?aget_al in *.
+    all: repeat match goal with H : slot _ _ = _ |- _ => rewrite H in * end.
+    all: repeat match goal with
+         | H : Nat.eqb _ _ = _ |- _ => rewrite H in *
+         | H : Bool.eqb _ _ = _ |- _ => rewrite H in *
+         | H : hown _ = _ |- _ => rewrite H in *
+         | H : _ || _ = true |- _ => rewrite H in *
+         end.
+    all: unfold amove in *; rewrite ?aget_al in *; repeat match goal with H : slot _ _ = _ |- _ => rewrite H in * end.
+    all: repeat match goal with H : acq_of _ _ = _ |- _ => rewrite H in * end.
+    all: repeat match goal with H : wop_code _ _ = _ |- _ => rewrite H in * end.
+    all: repeat match goal with H : in_range _ = _ |- _ => rewrite H in * end.
+    all: repeat match goal with H : locking _ = _ |- _ => rewrite H in * end.
+    all: cbn [ao option_map negb orb adis fst hsh hown hnn hid nulled disown] in *.
+    all: repeat match goal with
+         | H : Bool.eqb _ _ = _ |- _ => rewrite H in *
+         | H : hown _ = _ |- _ => rewrite H in *
+         end; cbn [negb] in *.
+    all: try (inversion Eb; subst; first [apply ale_refl | exact I | reflexivity]).
+    all: try match goal with a0 : amode |- _ => destruct a0 end.
+    all: try (destruct (any_own (al sl)) eqn:Eany; try discriminate).
+    all: try (inversion Eb; subst; first [apply ale_refl | exact I | reflexivity]).
+  }
+  all: step_cases Hs; (split; [exists a; split; [|exact Hw]|try exact I]); unfold apost in *; cbn [at_ slots] in *.
+  all: rewrite ?al_upd in *; cbn [ao option_map hsh hown] in *.
+  all: try exact Ha.
+  all: try (eapply ale_trans; [|exact Ha]; apply ale_upd; [apply ale_refl|cbn; auto; fail]).
+Qed.
+
+Lemma R_wfl cf progs s : wf_progs cf progs = true -> R cf progs s ->
+  forall u l, nth_error (thr s) u = Some l -> wfl cf l.
+Proof.
+  intros Hwf HR.
+  assert (HI : Inv1 cf (gl s) (thr s) /\ forall u lu, nth_error (thr s) u = Some lu -> wfl cf lu); [|apply HI].
+  refine (reachable_inv glob loc (tstep cf)
+            (fun g ls => Inv1 cf g ls /\ forall u lu, nth_error ls u = Some lu -> wfl cf lu) _ _ _ _ HR).
+  - intros g ls t0 c l0 g' l' es [H1 Hn] Hl0 Hs. split; [eapply Inv1_step; eauto|].
+    intros u lu Hu. destruct (nth_upd _ _ _ _ _ Hu) as [[-> [-> _]]|[_ Hu']]; [|eauto].
+    eapply wfl_step; eauto. eapply I_ok; eauto.
+  - split; [apply Inv1_init|]. intros u lu Hu. unfold init in Hu. cbn [thr] in Hu.
+    rewrite nth_error_map in Hu. destruct (nth_error progs u) as [p|] eqn:Ep; cbn in Hu; [|discriminate].
+    injection Hu as <-. split; [|exact I]. exists (repeat None NSLOTS). split; [apply ale_refl|].
+    unfold wf_progs in Hwf. rewrite forallb_forall in Hwf. apply Hwf. eapply nth_error_In; eauto.
+Qed.
+
+Lemma wfl_releases cf l : wfl cf l -> fin l = true \/ blocked cf l -> ~ holds_in_slots cf l.
+Proof.
+  intros [[a [Ha Hw]] Hside] Hfb Hh.
+  assert (any_own (al (slots l)) = false) as Hno.
+  { destruct Hfb as [Hf|[sm [[h [sh [Hp _]]]|[o [gsh [code [Hp _]]]]]]].
+    - unfold fin in Hf. unfold apost in Ha. destruct (at_ l); try discriminate. destruct (prog l); [|discriminate].
+      cbn in Hw. apply negb_true_iff in Hw. eapply any_own_le_false; eauto.
+    - rewrite Hp in Hside. exact Hside.
+    - rewrite Hp in Hside. exact Hside. }
+  pose proof (any_own_al _ Hno) as Hz. unfold holds_in_slots in Hh.
+  rewrite !cnt_zero in Hh; [lia| |]; intros h x Hx; unfold hx, hs; rewrite (Hz h x Hx); reflexivity.
+Qed.
+
+Lemma wf_no_nesting_l cf progs s : wf_progs cf progs = true -> R cf progs s -> ~ keeps_or_nests cf s.
+Proof.
+  intros Hwf HR [a [la [Ha [Hh Hfb]]]]. exact (wfl_releases cf la (R_wfl cf progs s Hwf HR a la Ha) Hfb Hh).
 Qed.
